@@ -44,3 +44,78 @@ def run_ctfe(repo):
         if not fails:
             fails.append("BUILD-ERROR: " + r.stdout[-1500:])
     return r.returncode == 0, fails, n, dt, r.stdout
+
+
+def cf_labels():
+    """{struct name: label} of the compile-fail witnesses, from the crate's doc headings."""
+    out = {}
+    label = None
+    with open(os.path.join(VERIF, "witness_cf", "src", "lib.rs")) as f:
+        for line in f:
+            m = re.match(r"/// (cf/C\d\d/[\w-]+)", line)
+            if m:
+                label = m.group(1)
+            m = re.match(r"pub struct (\w+);", line)
+            if m and label:
+                out[m.group(1)] = label
+                label = None
+    return out
+
+
+_CF_CACHE = {}
+
+
+def run_cf(repo):
+    """cargo +nightly test --doc of the compile-fail crate against `repo`.
+    Returns ({label: (witness_ok, twin_ok)}, seconds, raw output, build_error or None)."""
+    if repo in _CF_CACHE:
+        return _CF_CACHE[repo]
+    work = _prepare("witness_cf", repo)
+    env = dict(os.environ, CARGO_NET_OFFLINE="true", CARGO_TARGET_DIR=os.path.join(work, "target"))
+    env.pop("RUSTC_WRAPPER", None)
+    t0 = time.time()
+    r = subprocess.run(["cargo", "+nightly", "test", "--doc", "--offline"], cwd=work, env=env,
+                       stdout=subprocess.PIPE, stderr=subprocess.STDOUT, text=True)
+    dt = time.time() - t0
+    labels = cf_labels()
+    res = {}
+    for m in re.finditer(r"^test \S+ - (\w+) \(line \d+\) - compile( fail)? \.\.\. (\w+)", r.stdout, re.M):
+        name, fail, status = m.group(1), bool(m.group(2)), m.group(3)
+        lab = labels.get(name)
+        if lab is None:
+            continue
+        w, t = res.get(lab, (None, None))
+        if fail:
+            w = status == "ok"
+        else:
+            t = status == "ok"
+        res[lab] = (w, t)
+    err = None
+    if not res:
+        err = r.stdout[-1500:]
+    out = (res, dt, r.stdout, err)
+    _CF_CACHE[repo] = out
+    return out
+
+
+def cf_rule(ctx, rid, prefixes, desc=None):
+    """Rule: the compile-fail witnesses with the given label prefixes are rejected by the compiler with the
+    expected error code, and their twins compile."""
+    r = ctx.rule(rid, desc or "compile-fail witnesses: programs an external user must not be able to write are rejected (rustc, with error code), their twins compile")
+    res, dt, raw, err = run_cf(ctx.repo)
+    if err is not None:
+        r.fail("cf/BUILD", "the compile-fail witness crate could not be run: %s" % err[-600:])
+        return r
+    labels = cf_labels()
+    want = sorted(l for l in labels.values() if any(l.startswith(p) for p in prefixes))
+    for lab in want:
+        w, t = res.get(lab, (None, None))
+        if t is not True:
+            r.fail(lab + "/twin", "the compiling twin of witness %s does not compile any more: the witness proves nothing (API renamed?)" % lab)
+        elif w is not True:
+            r.fail(lab, "program %s is accepted by the compiler (or fails with a different error): the encapsulation it witnesses is gone" % lab)
+        else:
+            r.ok(lab)
+    r.floor(len(want), 1, "compile-fail witnesses with prefix %s" % "/".join(prefixes))
+    r.note("cargo +nightly test --doc of witness_cf: %.1fs" % dt)
+    return r
